@@ -6,7 +6,10 @@ callable table and the canonicalisation of tools/k2.py; adds
            `sched{c}` with one FIFO per context run by `R<c>`, get_scheduler as a third query, and the
            library's own compositions via / typed_via / on / with_scheduler_affinity: the C++ side calls the
            real unifex function, the model side uses the Gallina definition over finally / sequence /
-           with_query_value / unstoppable / schedule.
+           with_query_value / unstoppable / schedule;
+  stage 3  more algorithms: let_value_with_stop_source (+ leaves whose callable requests stop on a chosen
+           enclosing source), stop_if_requested, just_from, defer, repeat_effect_until (predicate = bit
+           list), retry_when (n granted retries), into_variant.
 Development switches (never used by registered checks): VERIF_CALC2_DRIVER=<exe> runs a privately built
 model driver, VERIF_K2V2_HDR=<dir> takes k2v2.hpp from <dir> instead of harness/."""
 import hashlib, os, random, re
@@ -26,6 +29,7 @@ class Gen2(k2.Gen):
     def __init__(self, rng, max_leaves=4, kinds=None, p_new=0.3, wsa=False):
         super().__init__(rng, max_leaves, kinds)
         self.nsched = 0
+        self.nss = 0          # enclosing let_value_with_stop_source operations
         self.p_new = p_new
         self.un2 = UN2 if wsa else [k for k in UN2 if k != "wsav"]   # wsav needs a C++20 build
 
@@ -34,12 +38,36 @@ class Gen2(k2.Gen):
         return 99 + self.nsched
 
     def leafish(self, nbound):
-        if self.nsched < 4 and self.rng.random() < self.p_new * 0.5:
-            return ("sched", self.sid(), self.rng.randrange(NCTX))
+        r = self.rng
+        if self.nsched < 4 and r.random() < self.p_new * 0.4:
+            return ("sched", self.sid(), r.randrange(NCTX))
+        if self.nss > 0 and self.nleaf < self.max_leaves and r.random() < 0.4:
+            self.nleaf += 1
+            return ("leafr", self.nleaf - 1, r.randrange(self.nss))
+        c = r.random()
+        if c < self.p_new * 0.2: return ("stopif",)
+        if c < self.p_new * 0.3: return ("jfrom", self.fn())
         return super().leafish(nbound)
 
     def expr(self, size, nbound=0):
         r = self.rng
+        if size > 1 and r.random() < self.p_new * 0.9:
+            k = r.choice(["lvss", "lvss", "repeat", "retry", "intov", "defer"])
+            if k == "lvss":
+                self.nss += 1
+                sub = self.expr(size - 1, nbound)
+                self.nss -= 1
+                return (k, 1 if r.random() < 0.2 else 0, sub)
+            if k == "repeat":
+                n = r.randint(0, 3)
+                return (k, "b" + "".join(r.choice("001") for _ in range(n)), self.expr(size - 1, nbound))
+            if k in ("intov", "defer"):
+                return (k, self.expr(size - 1, nbound))
+            if size > 2:
+                sa = r.randint(1, size - 2)
+                a = self.expr(sa, nbound)
+                b = self.expr(size - 1 - sa, nbound + 1)
+                return ("retry", r.randint(0, 2), a, b)
         if size > 1 and r.random() < self.p_new:
             k = r.choice(self.un2)
             if k != "withsched" and self.nsched >= 4:
@@ -56,8 +84,13 @@ def subexprs(e):
     return [x for x in e[1:] if isinstance(x, tuple) and x and isinstance(x[0], str) and x[0] not in FNS]
 
 
-def leaves(e):
-    return k2.leaves(e)
+def leaves(e, acc=None):
+    acc = [] if acc is None else acc
+    if e[0] in ("leaf", "leafn", "leafr"):
+        acc.append(e[1])
+    for x in subexprs(e):
+        leaves(x, acc)
+    return acc
 
 
 def scheds(e, acc=None):
@@ -77,6 +110,12 @@ def to_model(e):
     if k in ("via", "tvia", "on", "wsav"): return "(%s %d %d %s)" % (k, e[1], e[2], to_model(e[3]))
     if k in ("just", "jerr", "var", "leaf", "leafn"): return "(%s %d)" % (k, e[1])
     if k == "jdone": return "(jdone)"
+    if k == "stopif": return "(stopif)"
+    if k == "leafr": return "(leafr %d %d)" % (e[1], e[2])
+    if k == "jfrom": return "(jfrom (%s))" % " ".join(map(str, e[1]))
+    if k in ("lvss", "repeat"): return "(%s %s %s)" % (k, e[1], to_model(e[2]))
+    if k in ("intov", "defer"): return "(%s %s)" % (k, to_model(e[1]))
+    if k == "retry": return "(retry %d %s %s)" % (e[1], to_model(e[2]), to_model(e[3]))
     if k in ("then", "uerr", "udone"):
         return "(%s (%s) %s)" % (k, " ".join(map(str, e[1])), to_model(e[2]))
     if k == "withq": return "(withq %d %d %s)" % (e[1], e[2], to_model(e[3]))
@@ -84,9 +123,31 @@ def to_model(e):
     return "(%s %s %s)" % (k, to_model(e[1]), to_model(e[2]))
 
 
-def to_cpp(e, bound=()):
-    """bound: tuple of C++ variable names, innermost first"""
+def to_cpp(e, bound=(), ss=()):
+    """bound: tuple of C++ variable names, innermost first; ss: names of the pointers to the stop sources of the
+    enclosing let_value_with_stop_source operations, outermost first"""
+    return _cpp(e, bound, ss)
+
+
+def _cpp(e, bound, ss):
+    def to_cpp(x, b=bound):
+        return _cpp(x, b, ss)
     k = e[0]
+    if k == "stopif": return "k2v2::stopif()"
+    if k == "leafr": return "k2v2::leafr(%d, %s)" % (e[1], ss[e[2]])
+    if k == "jfrom": return "k2v2::jfrom(%s)" % k2.cpp_fn(e[1])
+    if k == "lvss":
+        p = "p%d" % len(ss)
+        return "k2v2::lvss(%s, [=](auto* %s) { return %s; })" % ("true" if e[1] else "false", p, _cpp(e[2], bound, ss + (p,)))
+    if k == "repeat":
+        bits = e[1][1:]
+        val = sum(1 << i for i, c in enumerate(bits) if c == "1")
+        return "k2v2::repeat(%s, k2v2::predlist{%du, %d})" % (to_cpp(e[2]), val, len(bits))
+    if k == "intov": return "k2v2::intov(%s)" % to_cpp(e[1])
+    if k == "defer": return "unifex::defer([=]() { return %s; })" % to_cpp(e[1])
+    if k == "retry":
+        x = "x%d" % len(bound)
+        return "k2v2::retry(%s, %d, [=](int %s) { return %s; })" % (to_cpp(e[2]), e[1], x, to_cpp(e[3], (x,) + bound))
     if k == "leaf": return "k2v2::leaf{%d,false}" % e[1]
     if k == "leafn": return "k2v2::leaf{%d,true}" % e[1]
     if k in ("just", "jerr", "jdone", "var"): return k2.to_cpp(e, bound)
@@ -299,6 +360,20 @@ CORPUS = list(k2.CORPUS) + [
     ("wall", ("sched", 100, 1), ("on", 101, 1, ("leafn", 0))),
     ("swhen", ("via", 100, 1, ("leaf", 0)), ("sched", 101, 1)),
     ("letv", ("sched", 100, 2), ("withsched", 3, ("leaf", 0))),
+    # stage 3
+    ("lvss", 0, ("wall", ("leafr", 0, 0), ("leafn", 1))),
+    ("lvss", 0, ("swhen", ("leafn", 0), ("leafr", 1, 0))),
+    ("lvss", 1, ("wall", ("leaf", 0), ("leafn", 1))),
+    ("lvss", 0, ("unstop", ("lvss", 0, ("wall", ("leafr", 0, 0), ("wall", ("leafr", 1, 1), ("leafn", 2)))))),
+    ("repeat", "b001", ("seq", ("leaf", 0), ("just", 1))),
+    ("repeat", "b00", ("just", 1)),
+    ("repeat", "b0", ("wall", ("leaf", 0), ("leafn", 1))),
+    ("retry", 2, ("letv", ("leaf", 0), ("jerr", 21)), ("leaf", 1)),
+    ("retry", 2, ("jerr", 21), ("just", 1)),
+    ("retry", 1, ("wall", ("leaf", 0), ("leafn", 1)), ("then", ("add", 1), ("var", 0))),
+    ("intov", ("wall", ("leaf", 0), ("stopif",))),
+    ("defer", ("letv", ("just", 5), ("then", ("add", 1), ("var", 0)))),
+    ("letv", ("just", 7), ("defer", ("wall", ("var", 0), ("jfrom", ("add", 2))))),
 ]
 
 
